@@ -394,6 +394,31 @@ def run_case(case, ctx):
         if diffs:
             ctx.violation("C06/L2/differs-from-KMeans/%s" % diffs[0], "norm='L2' differs from KMeans in %s" % diffs,
                           cfg=cfg)
+        # ---- the other entry points, with the same weights: fit_transform and fit_predict are KMeans' too
+        if rsk == "int":
+            wq = w if w is not None else (numpy.random.RandomState(rs).rand(len(X)) * 3 + 0.2 if case["sub"] % 2 else None)
+            for entry in ("fit_transform", "fit_predict"):
+                try:
+                    with warnings.catch_warnings():
+                        warnings.simplefilter("ignore")
+                        ea, eb = KMeansL1L2(norm="L2", **kw_int), KMeans(**kw_int)
+                        ra = getattr(ea, entry)(X) if wq is None else getattr(ea, entry)(X, sample_weight=wq)
+                        rb = getattr(eb, entry)(X) if wq is None else getattr(eb, entry)(X, sample_weight=wq)
+                except Exception as e:
+                    ctx.violation("C06/L2/%s/raised/%s" % (entry, type(e).__name__), str(e)[:150], cfg=cfg)
+                    continue
+                ctx.hit("L2.entry_points")
+                # (labels, centres and inertia exactly; the distance matrix up to rounding: scikit-learn's own fit_transform
+                # and fit().transform() differ by 4e-15 on a Fortran-ordered matrix, and the expanded form of the squared
+                # distance turns that into 2e-8 for a point that sits on its centre)
+                ra_, rb_ = numpy.asarray(ra), numpy.asarray(rb)
+                same_r = numpy.array_equal(ra_, rb_) if entry == "fit_predict" else (
+                    ra_.shape == rb_.shape and numpy.allclose(ra_, rb_, rtol=1e-7, atol=1e-6 * float(numpy.abs(rb_).max() or 1)))
+                if not same_r or ea.inertia_ != eb.inertia_ or \
+                        not numpy.array_equal(ea.cluster_centers_, eb.cluster_centers_):
+                    ctx.violation("C06/L2/differs-from-KMeans/%s%s" % (entry, "/weighted" if wq is not None else ""),
+                                  "norm='L2': %s(X%s) differs from KMeans.%s with the same arguments" % (
+                                      entry, ", sample_weight=w" if wq is not None else "", entry), cfg=cfg)
         # ---- history: a fit under the other norm that is refused changes nothing of what predict / transform answer
         if not f32 and isinstance(init, str):
             for first, other in (("L2", "L1"), ("L1", "L2")):
